@@ -93,7 +93,7 @@ def max_overlap(spans):
 
 def monitor(case, rec):
     d = dagmon.derive(case)
-    v = {p: [] for p in ('C01', 'C02', 'C03', 'C04', 'C10', 'C11', 'C17')}
+    v = {p: [] for p in ('C01', 'C02', 'C03', 'C04', 'C05', 'C10', 'C11', 'C17')}
     st = rec['status']
     val, closure, kids = d['val'], d['closure'], d['kids']
     be = case['be']
@@ -107,6 +107,8 @@ def monitor(case, rec):
     any_fail = any(val[t] is None for t in closure)
     if any(f & 128 for f in case['fl']) and rec['wall'] > 3.0:
         v['C11'].append(f'real {be} run returned {rec["wall"]}s after start although its tasks take milliseconds: it waited for a worker process that outlives run()')
+        if rec['spans'] and max(s['start'] for s in rec['spans']) - min(s['start'] for s in rec['spans']) > 2.5:
+            v['C05'].append(f'real {be} run: a runnable task was started {max(s["start"] for s in rec["spans"]) - min(s["start"] for s in rec["spans"]):.1f}s after the first although every task takes milliseconds: the coordinator sat on a finished worker instead of starting queued work')
         dist_note = True
     if case['cof'] or not any_fail:
         want = 'returned ' + ','.join(f'{t}:{val[t]}' for t in d['req_tids'] if val[t] is not None)
